@@ -111,7 +111,7 @@ func (cmd Set) Run(w redis.Writer, red redis.Redka) (any, error) {
 	}
 
 	if cmd.get {
-		if out.Created {
+		if out.Created || (cmd.ifXX && !out.Updated) {
 			// no previous value
 			w.WriteNull()
 			return core.Value(nil), nil
